@@ -6,5 +6,31 @@ tab = open('/verif/seeded/RESULTS.md').read()
 p = '/verif/DESIGN.md'
 s = open(p).read()
 s = re.sub(r'<!-- SENS-TABLE-BEGIN -->.*?<!-- SENS-TABLE-END -->', '<!-- SENS-TABLE-BEGIN -->\nAll lane runs (generated):\n\n' + tab + '\n<!-- SENS-TABLE-END -->', s, flags=re.S)
+
+def sweep(path):
+    d = {}
+    try:
+        for l in open(path):
+            m = re.match(r'(C\d+) seed=(\d+) tier=(\w+) exit=(\d+) secs=(\d+) (\d+) known', l)
+            if m and m.group(4) == '0':
+                d[m.group(1)] = (int(m.group(5)), int(m.group(6)), m.group(2))
+    except FileNotFoundError:
+        pass
+    return d
+import glob, os
+q = {}
+for f in sorted(glob.glob('/verif/target/sweep-seed*.log'), key=os.path.getmtime):
+    q.update(sweep(f))
+t = sweep('/verif/target/sweep-thorough.log')
+rows = ["| check | quick s (seed) | known | thorough s (seed) |", "|---|---|---|---|"]
+for i in range(1, 41):
+    c = f"C{i:02d}"
+    if c == "C10":
+        continue
+    a = q.get(c); b = t.get(c)
+    rows.append(f"| {c} | {a[0] if a else '-'} ({a[2] if a else '-'}) | {a[1] if a else '-'} | {b[0] if b else '-'} ({b[2] if b else '-'}) |")
+tq = sum(v[0] for v in q.values()); tt = sum(v[0] for v in t.values())
+rows.append(f"| sum | {tq} |  | {tt} |")
+s = re.sub(r'<!-- COST-TABLE-BEGIN -->.*?<!-- COST-TABLE-END -->', '<!-- COST-TABLE-BEGIN -->\n' + "\n".join(rows) + '\n<!-- COST-TABLE-END -->', s, flags=re.S)
 open(p, 'w').write(s)
 print("ok")
